@@ -235,9 +235,13 @@ async def run_history(h: BHist, corr=None):
     obs: list[dict] = []
     dead = False          # the stream has ended or failed: nothing further can be read on this connection
 
+    flagged = False
+
     def violate(what: str, **kw) -> None:
-        if corr is not None:
+        nonlocal flagged
+        if corr is not None and not flagged:      # one report per history: the shortest failing prefix
             corr.violate(what, {"byte_history": h.to_json(done, obs), "step": len(done), **kw})
+        flagged = True
 
     async def drop_pending() -> None:
         nonlocal pending, listener
